@@ -1,7 +1,8 @@
 (* C09 — property theorems only: no panic and no fuel exhaustion, for EVERY byte string and reader state. *)
 From Coq Require Import String List NArith ZArith Bool.
 From LE Require Import Codec.Varint Codec.VarintProofs Codec.Reader Codec.Schema Codec.TotalProofs
-                       Codec.Bits Codec.BitsProofs Gen.Schemas.
+                       Codec.Bits Codec.BitsProofs Gen.Schemas
+                       Safe.RmtIndex Safe.RmtIndexProofs.
 Import ListNotations.
 Local Open Scope N_scope.
 
@@ -84,3 +85,52 @@ Proof. exists [255], 8%nat. exact bits_read_short_bitmap_panics. Qed.
 Theorem C09_read_bytes_alloc_bounded : forall r bs r', rinv r -> read_bytes_r r = Ok (bs, r') ->
   (List.length bs <= List.length (data r) - idx r)%nat.
 Proof. exact read_bytes_alloc_bounded. Qed.
+
+(* ---- the payload decoders of every network-facing entry point (gossip validators, RPC handlers, p2p envelopes) ---- *)
+Local Open Scope string_scope.
+Definition network_entry_points : list string :=
+  [ "pkg/p2p.Message"; "pkg/p2p.Request"; "pkg/p2p.responseMsg";
+    "pkg/blockchain.RawBlock"; "pkg/blockchain.Block"; "pkg/blockchain.BlockHeader"; "pkg/blockchain.Transaction";
+    "pkg/blockchain.BlockAsset"; "pkg/blockchain.AggregateCommit";
+    "pkg/consensus.EventPostBlock"; "pkg/consensus.EventPostSingleCommits"; "pkg/consensus/certificate.SingleCommit";
+    "pkg/consensus/certificate.Certificate";
+    "pkg/consensus/sync.GetHighestCommonBlockRequest"; "pkg/consensus/sync.GetHighestCommonBlockResponse";
+    "pkg/consensus/sync.GetBlocksFromIDRequest"; "pkg/consensus/sync.GetBlocksFromIDResponse";
+    "pkg/consensus/sync.getHighestCommonBlockRequest"; "pkg/consensus/sync.getHighestCommonBlockResponse";
+    "pkg/consensus/sync.getBlocksFromIDRequest"; "pkg/consensus/sync.getBlocksFromIDResponse"; "pkg/consensus/sync.NodeInfo";
+    "pkg/txpool.GetTransactionsResponse"; "pkg/trie/smt.Proof"; "pkg/trie/rmt.Proof" ].
+Local Close Scope string_scope.
+
+Theorem C09_network_payload_decoders_never_panic : forall (S : strops) nm, In nm network_entry_points ->
+  exists s, Schema.lookup schemas_env nm = Some s /\
+    forall d, (Z.of_nat (List.length d) < 2^62)%Z ->
+      is_value_or_error (Decode S schemas_env (Datatypes.S max_depth) s d) /\
+      is_value_or_error (DecodeStrict S schemas_env (Datatypes.S max_depth) s d).
+Proof.
+  intros S nm H. cbn [network_entry_points In] in H.
+  repeat (destruct H as [<-|H];
+          [match goal with |- exists s, Schema.lookup _ ?n = Some s /\ _ =>
+             destruct (Schema.lookup schemas_env n) as [s0|] eqn:E;
+             [exists s0; split; [reflexivity|intros d Hd; exact (C09_all_generated_decoders_never_panic S n s0 d E Hd)]
+             |vm_compute in E; discriminate]
+           end|]).
+  contradiction.
+Qed.
+
+(* ---- rmt.VerifyProof / CalculateRootFromUpdateData: index arithmetic with explicit Panic / OutOfFuel outcomes ----
+   for every branch hash function and every (getHeight, getLayerStructure) pair with one layer entry per level and height
+   <= 4096 (the Go code appends exactly one entry per layer < height; its floating-point height is <= 65) *)
+Theorem C09_rmt_calculate_path_nodes_never_panics : forall bh gh gls,
+  (forall size, List.length (gls size) = N.to_nat (gh size)) -> (forall size, gh size <= 4096) ->
+  forall qh size idxs sibs, fine (calculate_path_nodes bh gh gls qh size idxs sibs).
+Proof. intros. apply calculate_path_nodes_total; assumption. Qed.
+
+Theorem C09_rmt_verify_proof_never_panics : forall bh gh gls,
+  (forall size, List.length (gls size) = N.to_nat (gh size)) -> (forall size, gh size <= 4096) ->
+  forall qh size idxs sibs root, fine (verify_proof bh gh gls qh size idxs sibs root).
+Proof. intros. apply verify_proof_total; assumption. Qed.
+
+(* the main loop runs with fuel [measure (sort idxs)], at most 65 iterations per index of the proof *)
+Theorem C09_rmt_fuel_bounded_by_input : forall sorted, Forall (fun x => x < 2^64) sorted ->
+  (RmtIndex.measure (idx_sort sorted) <= 65 * List.length sorted)%nat.
+Proof. exact cpn_fuel_bound. Qed.
